@@ -13,3 +13,4 @@ import Stackage.Spec.OptSpec
 import Stackage.Spec.OptLink
 import Stackage.Model.Defrag
 import Stackage.Spec.DefragSpec
+import Stackage.Props.C20
